@@ -433,6 +433,25 @@ def _state_stores(n, ctx):
     value is an expression, or ('elem', name, i) for the i-th element of a tuple held in local *name*
     (`a.x, a.y = saved`).  Handles single, chained and tuple-unpacking assignments.
     """
+    if n.kind == 'stmt' and isinstance(n.ast, ast.Expr) and isinstance(n.ast.value, ast.Call):
+        # dict.update(k=v, ...) / dict.update({'k': v}) / setattr(obj, 'name', v) are stores as well
+        c = n.ast.value
+        res = []
+        if astx.callee_attr(c) == 'update' and astx.receiver(c) is not None and isinstance(c.func, ast.Attribute):
+            base = ctx.norm_path(astx.receiver(c), n)
+            items = [(k.arg, k.value) for k in c.keywords if k.arg is not None]
+            if len(c.args) == 1 and isinstance(c.args[0], ast.Dict):
+                items += [(astx.const_str(k), v) for k, v in zip(c.args[0].keys, c.args[0].values)]
+            elif c.args:
+                return []
+            if base is not None and '[*]' not in base and items and all(k is not None for k, _ in items) and \
+                    not any(k.arg is None for k in c.keywords):
+                res = [(f'{base}[{k!r}]', v) for k, v in items]
+        elif astx.call_name(c) == 'setattr' and len(c.args) == 3 and astx.const_str(c.args[1]):
+            base = ctx.norm_path(c.args[0], n) if astx.path(c.args[0]) else None
+            if base is not None and '[*]' not in base:
+                res = [(f'{base}.{astx.const_str(c.args[1])}', c.args[2])]
+        return res
     if n.kind != 'stmt' or not isinstance(n.ast, ast.Assign):
         return []
     res = []
@@ -2680,6 +2699,24 @@ selftest(
     Mutant('sc-const-flag-helper-same-flag', SYS, _SC_PRE, "        self._c31_rescale(to_norm=True)\n", 'C31.scale_ctx',
            also=[(SYS, _SC_POST, "            self._c31_rescale(True)\n"),
                  (SYS, "    @contextmanager\n    def _matvec_context(", _SC_FLAGH + "    @contextmanager\n    def _matvec_context(")]),
+    # ---- third robustness round: stores written as dict.update(...)
+    Twin('twin-ctx-update-and-tuple', COLOR,
+         "        problem._metadata['randomize_subjacs'] = coloring_info.randomize_subjacs\n"
+         "        problem._metadata['randomize_seeds'] = coloring_info.randomize_seeds\n",
+         "        problem._metadata.update(randomize_subjacs=coloring_info.randomize_subjacs,\n"
+         "                                 randomize_seeds=coloring_info.randomize_seeds)\n"),
+    Twin('twin-ctx-restore-by-update', COLOR,
+         "        problem._metadata['randomize_subjacs'] = saved_rand_subjacs\n        problem._metadata['randomize_seeds'] = saved_rand_seeds\n",
+         "        problem._metadata.update({'randomize_subjacs': saved_rand_subjacs, 'randomize_seeds': saved_rand_seeds})\n"),
+    Mutant('ctx-update-extra-key-not-restored', COLOR,
+           "        problem._metadata['randomize_subjacs'] = coloring_info.randomize_subjacs\n"
+           "        problem._metadata['randomize_seeds'] = coloring_info.randomize_seeds\n",
+           "        problem._metadata.update(randomize_subjacs=coloring_info.randomize_subjacs,\n"
+           "                                 randomize_seeds=coloring_info.randomize_seeds, singular_jac_behavior='ignore')\n",
+           'C31.ctx'),
+    Mutant('ctx-update-restore-swapped', COLOR,
+           "        problem._metadata['randomize_subjacs'] = saved_rand_subjacs\n        problem._metadata['randomize_seeds'] = saved_rand_seeds\n",
+           "        problem._metadata.update(randomize_subjacs=saved_rand_seeds, randomize_seeds=saved_rand_subjacs)\n", 'C31.ctx'),
     # ---- twins
     Twin('twin-zero-vecs-alias', TJ, "        self.model._doutputs.set_val(0.0)\n        self.model._dresiduals.set_val(0.0)\n",
          "        mdl = self.model\n        mdl._doutputs.set_val(0.0)\n        dres = mdl._dresiduals\n        dres.set_val(0.0)\n"),
